@@ -1,6 +1,6 @@
 (* Run.v — single entry point of the executable model: one wire value in, one out.
    Decoding of arguments is done here, in Gallina, so that driver.ml has no logic. *)
-From Verif Require Import PyLib ModelTypes Generated_scores Model_scores Spec_scores Proofs_capri.
+From Verif Require Import PyLib ModelTypes Generated_scores Model_scores Spec_scores.
 Open Scope string_scope.
 
 Definition VresS (r : res string) : V :=
